@@ -266,6 +266,8 @@ class Weaver:
         derive_prefix = "#[derive(%s)]\n" % ", ".join(kept) if kept else ""
         if not kv.get("keep_attrs"):
             text = rl.strip_attrs_and_docs(text)
+        if kv.get("nosuper"):
+            text = re.sub(r"\bsuper::\w+::", "", text)
         if kv.get("nopub"):
             text = re.sub(r"^pub(\([a-z]+\))?\s+", "", text)
         u.log.append(dict(kind="item", file=f, item=kv["kind"] + " " + kv["name"], impl=kv.get("impl"),
@@ -536,6 +538,9 @@ class Weaver:
             if not mc:
                 raise Lost("R6: last argument of %s is not a `|| { .. }` closure" % helper)
             cbody = clo[mc.end() - 1:]
+            ctoks = rl.tokenize(cbody)
+            if any((t.kind == "punct" and t.text == "?") or (t.kind == "ident" and t.text == "return") for t in ctoks):
+                raise Lost("R6 side condition violated: the closure passed to %s contains `?` or `return` (beta-reduction would change where they exit to)" % helper)
             end = ftoks[c].end
             rest = text[end:]
             q = re.match(r"\s*\?", rest)
